@@ -15,7 +15,7 @@ META = dict(
                "placement yields disjoint spans; NewTextLine's Center/Right placement before the fix is refuted (all spans at one X) and after the fix "
                "places the spans consecutively. Everything observable of ToText (coverage of the input string, soft hyphens, stacking by line heights, "
                "disjoint spans, box containment unless Overflows, alignment equations, justification, newlines, Bounds/Heights) is judged on every "
-               "generated layout by the Coq oracle, not proved about ToText itself.",
+               "generated layout by the Coq oracle, not proved about ToText itself. Added: for every span list and level assignment the visual order of reorderSpans (rule L2) is a permutation of the span indices, reorderSpans keeps number, widths and levels of the spans (only X changes), and a line without level>=1 spans is left untouched.",
     level_note="Trusted: Coq kernel + vm_compute; shaping, script itemisation and bidi levels come from external libraries and are inputs; the hook "
                "VerifLayoutInputs repeats ToText's itemise/shape prefix (cross-checked per case: line count = break count, glyph clusters inside spans); "
                "no bundled font covers Hebrew/Arabic/CJK (unifont is an empty file), those strings are laid out with .notdef glyphs.",
